@@ -3,7 +3,7 @@
    Arrays are (length, index function) over Q; np.pad is an arbitrary function with the contract
    [np_contract]; exp is an arbitrary positive function. *)
 From Coq Require Import ZArith QArith List Bool Lia.
-From PB Require Import lib.PySlice C18.Model C18.SumQ C18.PadProofs C18.ConvProofs C18.Model2D C18.Proofs2D C18.DType C18.DTypeProofs C18.OwProofs C18.LsqMin.
+From PB Require Import lib.PySlice C18.Model C18.SumQ C18.PadProofs C18.ConvProofs C18.Model2D C18.Proofs2D C18.DType C18.DTypeProofs C18.OwProofs C18.LsqMin C18.LinProofs.
 Import ListNotations.
 Open Scope Z_scope.
 
@@ -363,3 +363,21 @@ Theorem C18_edge_minimises_squared_error : forall (y : vec) (p w : Z) (left : bo
        <= sse (Z.to_nat m) (fun k => inject_Z (p + s + k)) (fun k => vget y (s + k)) a b)%Q.
 Proof. exact pad_edge_minimises. Qed.
 Print Assumptions C18_edge_minimises_squared_error.
+
+(* padded_convolve with an index-function padding mode (np.pad 'edge', 'reflect', 'symmetric', 'wrap':
+   np_src src for ANY source-index function of the length) is a LINEAR map of the data: for every length,
+   kernel and scalars a, b the call on a*y1 + b*y2 succeeds exactly when the calls on y1 and y2 do (with
+   the same error otherwise) and returns a*out1 + b*out2 point by point.  (False for 'extrapolate' only in
+   the degenerate windows; the affine case of that mode is C18_linear_exact.) *)
+Theorem C18_convolve_index_modes_linear : forall (src : Z -> Z -> Z) (y1 y2 k : vec) (a b : Q),
+  vlen y1 = vlen y2 ->
+  match padded_convolve y1 k (NpMode (np_src src)), padded_convolve y2 k (NpMode (np_src src)),
+        padded_convolve (vlin a b y1 y2) k (NpMode (np_src src)) with
+  | Ok o1, Ok o2, Ok o =>
+      vlen o = vlen o1 /\ vlen o = vlen o2 /\
+      forall i, (vget o i == a * vget o1 i + b * vget o2 i)%Q
+  | Err e1, Err e2, Err e => e1 = e /\ e2 = e
+  | _, _, _ => False
+  end.
+Proof. exact convolve_src_linear. Qed.
+Print Assumptions C18_convolve_index_modes_linear.
